@@ -12,6 +12,20 @@ impl VM {
         }
     }
 
+    /// Copy globals_by_index back to the by-name map under the layout that is actually loaded.
+    /// (The running function may have an empty layout of its own and run on the layout of
+    /// whoever called it; `sync_current_function_globals` would then copy nothing.)
+    pub fn sync_loaded_globals(&mut self) {
+        if let Some(layout) = self.current_global_layout.clone() {
+            for (idx, name) in layout.names().iter().enumerate() {
+                if !name.is_empty() && idx < self.globals_by_index.len() {
+                    let value = self.globals_by_index[idx];
+                    self.globals.insert(name.clone(), value);
+                }
+            }
+        }
+    }
+
     /// Sync the current function's globals_by_index to the globals hashmap.
     pub fn sync_current_function_globals(&mut self) {
         if let Some(frame) = self.frames.last() {
